@@ -180,6 +180,10 @@ def run(ctx: Context, rep) -> None:
     check_formats(ctx, rep)
     from sa.rules import shared
     shared.check_exit_propagates(ctx, rep, "C12.exit", modules=(C.ITER_MOD, ), floor=1)
+    shared.check_one_shot(ctx, rep, "C12.one-shot", ("sedpack.io", ))
+    # the same options select the same examples on every pass over a
+    # returned dataset: tf.data gets a generator factory, not one generator
+    shared.check_fresh_pass(ctx, rep, "C12.fresh-pass")
     # the three restrictions compose in the documented order, for every
     # combination of options: predicate filter, then first-k, then the
     # per-metadata limit, applied to the walk of the requested split
